@@ -27,6 +27,17 @@ func main() {
 		for _, id := range ids {
 			fmt.Println(id)
 		}
+	case "racework":
+		// free-running concurrent workload for the race detector (C14 clause b)
+		var seed int64 = 1
+		rounds := 2
+		if len(os.Args) > 2 {
+			fmt.Sscan(os.Args[2], &seed)
+		}
+		if len(os.Args) > 3 {
+			fmt.Sscan(os.Args[3], &rounds)
+		}
+		drive.RaceWork(seed, rounds)
 	case "check":
 		if len(os.Args) < 3 {
 			usage()
